@@ -385,15 +385,18 @@ def gen_cases(ck: core.Check) -> tuple[list[dict], dict]:
     stats["skeleton_k1_exhaustive_trees<=3_bodies"] = len(cases) - n0
     n0 = len(cases)
     if ck.thorough:
-        for d, sc in G.skeletons(3, 2):
+        # thorough = about 5 x the quick counts (round 7: the exhaustive 2-value family, 150 000 programs,
+        # made the tier take over an hour on a shared box; it is sampled now, the cheap exhaustive
+        # families - 1 value on trees with <= 4 bodies, cross-scope control outputs <= 5 bodies - stay)
+        for d, sc in G.skeletons(3, 2, rng, sample=1300):
             cases.append({"kind": "script", "script": sc, "descr": d, "family": "skeleton-k2"})
-        stats["skeleton_k2_exhaustive_trees<=3_bodies"] = len(cases) - n0
+        stats["skeleton_k2_sampled"] = len(cases) - n0
         n0 = len(cases)
         for d, sc in G.skeletons(4, 1):
             cases.append({"kind": "script", "script": sc, "descr": d, "family": "skeleton-k1-b4"})
         stats["skeleton_k1_exhaustive_trees<=4_bodies"] = len(cases) - n0
         n0 = len(cases)
-        for d, sc in G.skeletons(3, 3, rng, sample=600):
+        for d, sc in G.skeletons(3, 3, rng, sample=120):
             cases.append({"kind": "script", "script": sc, "descr": d, "family": "skeleton-k3"})
         stats["skeleton_k3_sampled"] = len(cases) - n0
     else:
@@ -414,13 +417,13 @@ def gen_cases(ck: core.Check) -> tuple[list[dict], dict]:
         cases.append({"kind": "script", "script": sc, "descr": d, "family": "cross-ctrl-output"})
     stats["cross_ctrl_output_exhaustive_trees<=%d_bodies" % ck.pick(4, 5)] = len(cases) - n0
     n0 = len(cases)
-    for d, sc in G.cross_skeletons(ck.pick(5, 6), rng, sample=ck.pick(500, 6000)):
+    for d, sc in G.cross_skeletons(ck.pick(5, 6), rng, sample=ck.pick(500, 2000)):
         cases.append({"kind": "script", "script": sc, "descr": d, "family": "cross-ctrl-output-sampled"})
     stats["cross_ctrl_output_sampled"] = len(cases) - n0
     # (ii) seeded random programs
     n0 = len(cases)
     esc = 3 if getattr(ck, "escalated", False) and not ck.thorough else 1
-    for i in range(ck.pick(2100, 12000) * esc):
+    for i in range(ck.pick(2100, 8000) * esc):
         leak_p = [0.0, 0.0, 0.05, 0.3][i % 4]
         sc = G.random_script(rng, rng.randrange(3, 28), leak_p)
         cases.append({"kind": "script", "script": sc, "family": f"random-leak{leak_p}"})
@@ -463,7 +466,7 @@ def variant_cases(ck: core.Check, results: list[dict]) -> list[dict]:
     rng.shuffle(pool)
     for name, q in G.handmade_aps():
         out.append({"kind": "ap", "ap": q, "family": "handmade:" + name})
-    for r in pool[: ck.pick(160, 1500)]:
+    for r in pool[: ck.pick(160, 600)]:
         for name, q in G.ap_variants(r["ap"], rng):
             out.append({"kind": "ap", "ap": q, "family": "variant:" + name})
     for r in results:
@@ -550,7 +553,7 @@ def run(ck: core.Check, prove: bool = True):
     hrng = random.Random(ck.seed * 104729 + 7)
     hrng.shuffle(hsrc)
     hcases = []
-    for k, (j, c) in enumerate(hsrc[: ck.pick(900, 9000)]):
+    for k, (j, c) in enumerate(hsrc[: ck.pick(900, 3000)]):
         hc = {"kind": "history", "script": c["script"], "hseed": hrng.randrange(1 << 30), "family": c.get("family"), "pal": c.get("pal")}
         if k % 3 == 1:
             # another program of the same family (the neighbours in generation order: same scope tree,
